@@ -19,7 +19,9 @@ HEADS = {
     "xml": "http://www.w3.org/XML/1998/namespace",
 }
 # path steps that may follow a head inside a namespace URI
-PATH = {"b": "b/"}
+PATH = {"b": "b/",
+        # only inside URI *values* (xsd:anyURI), never in names: a query string with an ampersand
+        "amp": "q?a=1&b=2"}
 
 _HEADS_BY_LEN = sorted(HEADS.items(), key=lambda kv: -len(kv[1]))
 
